@@ -414,6 +414,27 @@ impl Check for C05 {
             }
             }
         };
+        // out-of-phase comparisons: some names are replaced by their definitions (once or
+        // twice), which denotes the same type but makes the two sides unfold at different
+        // positions, so that a recursive pair may never meet name against name
+        let (t1, t2) = if !env.defs.is_empty() && e.ratio(1, 4) {
+            ctx.class("names-unfolded-out-of-phase");
+            let mut a = t1.clone();
+            let mut b = t2.clone();
+            for _ in 0..e.range(1, 2) {
+                match e.below(3) {
+                    0 => a = unfold_some(&env, &a, &mut e),
+                    1 => b = unfold_some(&env, &b, &mut e),
+                    _ => {
+                        a = unfold_some(&env, &a, &mut e);
+                        b = unfold_some(&env, &b, &mut e);
+                    }
+                }
+            }
+            (a, b)
+        } else {
+            (t1, t2)
+        };
         let q = Q::new(&env);
         let want = match q.reference(&t1, &t2) {
             Some(w) => w,
@@ -600,6 +621,27 @@ pub(crate) fn primed_pair(e: &mut Ent, env: &mut Env, sc: &Scope, cfg: &TypeCfg)
     };
     let t2 = prime(&t1, &names);
     (t1, t2)
+}
+
+/// Replace some occurrences of defined names by their definition (one level).
+fn unfold_some(env: &Env, t: &Ty, e: &mut Ent) -> Ty {
+    match t {
+        Ty::Var(n) => match env.get(n) {
+            Some(body) if e.ratio(2, 3) => body.clone(),
+            _ => t.clone(),
+        },
+        Ty::Opt(x) => Ty::opt(unfold_some(env, x, e)),
+        Ty::Vec(x) => Ty::vec(unfold_some(env, x, e)),
+        Ty::Record(fs) => Ty::Record(fs.iter().map(|(l, x)| (l.clone(), unfold_some(env, x, e))).collect()),
+        Ty::Variant(fs) => Ty::Variant(fs.iter().map(|(l, x)| (l.clone(), unfold_some(env, x, e))).collect()),
+        Ty::Func { args, rets, modes } => Ty::Func {
+            args: args.iter().map(|x| unfold_some(env, x, e)).collect(),
+            rets: rets.iter().map(|x| unfold_some(env, x, e)).collect(),
+            modes: modes.clone(),
+        },
+        Ty::Service(ms) => Ty::Service(ms.iter().map(|(n, x)| (n.clone(), unfold_some(env, x, e))).collect()),
+        other => other.clone(),
+    }
 }
 
 fn vars_of(t: &Ty, out: &mut Vec<String>) {
